@@ -48,9 +48,8 @@ theorem ufuncInput_cells (n : List Nat) (v : Val) (cv : List Nat → List GQ) (v
     rw [ufuncInput_fld f a k h]
     exact fun i hi => hf.opd i hi
   | raw od =>
-    have : cv = rawCell od := hv.1
     intro i _
-    rw [this, ufuncInput_raw od a k h i]
+    rw [hv.1 i, ufuncInput_raw od a k h i]
 
 theorem ufunc2_cells (fn : GQ → GQ → GQ) (pw : Bool) (n : List Nat) (l r : Val) (g : CF)
     (cl cr : List Nat → List GQ) (vl vr : List Nat → Bool)
